@@ -89,6 +89,7 @@ def structures(tier, seed):
     pairs = [(("center", "left"), ("center", "right")), (("center", "right"), ("left", "center")), (("outer", "center"), ("center", "outer")),
              (("center", "inner"), ("center", "left")), (("left", "center"), ("outer", "center")), (("center", "outer"), ("center", "inner"))]
     out.append({"part": "native-lazy", "sid": "native-lazy[bounded]"})
+    out.append({"part": "native-vector-names", "sid": "native-vector-names[bounded]"})
     # the same labelling clauses when the operation is weighted by a metric (the product with the metric and the quotient by it go
     # through xarray arithmetic, which names its result only when both operands have the same name)
     for op in ("diff", "interp", "min", "max", "cumsum"):
@@ -143,6 +144,56 @@ def run_native_lazy(s):
            "detail": bad[0] if bad else f"{ncmp} lazy calls"}
     if bad:
         rec["witness"] = {"part": "native-lazy", "text": bad[0]}
+    return {"sid": s["sid"], "obligations": [rec], "paths": 0, "queries": 0, "solver_time": 0.0, "engine_errors": [], "covers": {"normal-return": 1},
+            "counts": {"bounded_standin_evaluations": ncmp}}
+
+
+def run_native_vector_names(s):
+    """[bounded] real xarray: a vector component operated across face links (aligned, axis-swapping, reversed; on either side of
+    face 0 or of face 1) keeps ITS name, dims and face coordinate - the padding concatenates pieces of the partner component"""
+    import time
+    import warnings
+
+    import numpy as np
+    import xarray as xr
+    import xgcm
+    warnings.simplefilter("ignore")
+    t0 = time.time()
+    n = 4
+    ds = xr.Dataset(coords={"face": [0, 1], "x_c": np.arange(n) + .5, "x_l": np.arange(n) * 1., "y_c": np.arange(n) + .5, "y_l": np.arange(n) * 1.})
+    coords = {"X": {"center": "x_c", "left": "x_l"}, "Y": {"center": "y_c", "left": "y_l"}}
+    rng = np.random.default_rng(0)
+    u = xr.DataArray(rng.random((2, n, n)), dims=("face", "y_c", "x_l"), name="u")
+    v = xr.DataArray(rng.random((2, n, n)), dims=("face", "y_l", "x_c"), name="v")
+    tables = {
+        "X-left-of-0<->Y-right-of-1": {0: {"X": ((1, "Y", False), None)}, 1: {"Y": (None, (0, "X", False))}},
+        "X-left-of-0<->Y-left-of-1,reversed": {0: {"X": ((1, "Y", True), None)}, 1: {"Y": ((0, "X", True), None)}},
+        "X-right-of-0<->Y-left-of-1": {0: {"X": (None, (1, "Y", False))}, 1: {"Y": ((0, "X", False), None)}},
+        "X-right-of-0<->Y-right-of-1,reversed": {0: {"X": (None, (1, "Y", True))}, 1: {"Y": (None, (0, "X", True))}},
+        "Y-left-of-0<->X-right-of-1": {0: {"Y": ((1, "X", False), None)}, 1: {"X": (None, (0, "Y", False))}},
+        "X-left-of-0<->X-right-of-1": {0: {"X": ((1, "X", False), None)}, 1: {"X": (None, (0, "X", False))}},
+        "X-left-of-1<->Y-right-of-0": {1: {"X": ((0, "Y", False), None)}, 0: {"Y": (None, (1, "X", False))}},
+    }
+    bad, ncmp = [], 0
+    for tag, fc in tables.items():
+        g = xgcm.Grid(ds, coords=coords, face_connections={"face": fc}, periodic=False, boundary="fill", fill_value=0., autoparse_metadata=False)
+        for op in ("diff", "interp", "min", "max"):
+            for comp, arr, oc, want_dims in (("X", u, {"Y": v}, ("face", "y_c", "x_c")), ("Y", v, {"X": u}, ("face", "y_c", "x_c"))):
+                ncmp += 1
+                call = f"grid.{op}({{{comp!r}: {arr.name}}}, {comp!r}, other_component={{{list(oc)[0]!r}: {list(oc.values())[0].name}}}) with face links {tag}"
+                try:
+                    r = getattr(g, op)({comp: arr}, comp, other_component=oc)
+                except Exception as e:  # noqa
+                    bad.append(f"{call} raised {type(e).__name__}: {e}")
+                    continue
+                if r.name != arr.name:
+                    bad.append(f"{call}: result is named {r.name!r}, the input {arr.name!r}")
+                elif tuple(r.dims) != want_dims:
+                    bad.append(f"{call}: dims {r.dims}, expected {want_dims}")
+    rec = {"fn": "grid.Grid.diff/interp/min/max[bounded, vector input across face links]", "clause": "name-and-dims-of-the-component-kept", "status": "failed" if bad else "proved",
+           "time": time.time() - t0, "detail": bad[0] if bad else f"{ncmp} calls"}
+    if bad:
+        rec["witness"] = {"part": "native-lazy", "text": "\n".join(bad[:12])}
     return {"sid": s["sid"], "obligations": [rec], "paths": 0, "queries": 0, "solver_time": 0.0, "engine_errors": [], "covers": {"normal-return": 1},
             "counts": {"bounded_standin_evaluations": ncmp}}
 
@@ -269,6 +320,8 @@ def run_structure(s):
         return run_native_lazy(s)
     if s.get("part") == "metric-weighted":
         return run_metric_weighted(s)
+    if s.get("part") == "native-vector-names":
+        return run_native_vector_names(s)
     mods = util.xgcm_modules()
     covers = {}
     canary = s.get("canary")
@@ -361,7 +414,7 @@ def replay(ob):
     warnings.simplefilter("ignore")
     wit = ob.get("witness") or {}
     if wit.get("part") == "native-lazy":
-        return {"confirmed": True, "text": "real xarray + dask:\n" + wit.get("text", "")}
+        return {"confirmed": True, "text": "real xarray (+ dask):\n" + wit.get("text", "")}
     if wit.get("part") == "metric-weighted":
         return replay_metric_weighted(wit)
     s = dict(wit["structure"])
